@@ -11,6 +11,14 @@ def run(ctx):
     # stability premise: HashSet equality looks elements up by hash, so it needs C07's invariance
     eqhash.rule_H_ORDER(ctx)
     eqhash.rule_H_HASH(ctx, st, classes)
+    # a description is turned into a value by the constructors: each new_X builds exactly variant X from its arguments (no normalisation such
+    # as double-negation elimination, seed c06-f), else "built from the same description" and "different constructors are unequal" fail
+    import maps as _m2
+    _m2.rule_M_CTOR(ctx)
+    # parser state: any field beyond the reviewed ones is unmodelled state (seed c06-e: an atom cache keyed by the bare name; c09-f: a stale
+    # copula index surviving reset_to)
+    import c08 as _c08
+    _c08.rule_S_FIELDS(ctx)
     ctx.undecided = ["nothing value-dependent beyond the induction over nesting depth; std HashSet::eq is trusted to implement set equality "
                      "given a Hash consistent with Eq (which the H-* premises establish)"]
     ctx.assumptions = ["std HashSet<T>::eq = same length and every element of one contained in the other", "String/usize equality is the identity relation"]
